@@ -92,7 +92,7 @@ Definition suffix_ok (v : utc_variant) (todo : list migration) : bool :=
   | [] => negb (has_rev utc_rev todo)
   | [x] => has_rev utc_rev todo && variant_eqb x v
   | _ => false
-  end && Bool.eqb (existsb is_backfill ops) (has_rev eid_rev todo).
+  end && Bool.eqb (existsb is_backfill ops) (has_rev eid_rev todo) && negb (existsb is_merge ops).
 
 Lemma all_suffixes_ok : forall v, forallb (suffix_ok v) (tails (chain v)) = true.
 Proof. destruct v; vm_compute; reflexivity. Qed.
@@ -113,7 +113,9 @@ Proof.
   pose proof (steps_after_tails _ _ _ Hs) as Hin.
   pose proof (all_suffixes_ok v) as Hall. rewrite forallb_forall in Hall. specialize (Hall _ Hin).
   apply steps_after_revs in Hs. rewrite chain_revisions in Hs.
-  unfold suffix_ok in Hall. apply andb_true_iff in Hall. destruct Hall as [Hu Hb].
+  unfold suffix_ok in Hall. apply andb_true_iff in Hall. destruct Hall as [Hall Hm].
+  apply negb_true_iff in Hm.
+  apply andb_true_iff in Hall. destruct Hall as [Hu Hb].
   apply Bool.eqb_prop in Hb.
   assert (Cu : crosses utc_rev (d_rev d) = has_rev utc_rev todo) by (unfold crosses; rewrite Hs; reflexivity).
   assert (Ce : crosses eid_rev (d_rev d) = has_rev eid_rev todo) by (unfold crosses; rewrite Hs; reflexivity).
@@ -124,7 +126,7 @@ Proof.
     + apply andb_true_iff in Hu. destruct Hu as [Hu Hv]. apply variant_eqb_eq in Hv. subst x0.
       rewrite Hu. reflexivity.
     + discriminate.
-  - intros t c. rewrite free_of_backfill, Hb. unfold exempt. rewrite Ce. reflexivity.
+  - intros t c. rewrite (free_of_backfill _ _ _ Hm), Hb. unfold exempt. rewrite Ce. reflexivity.
 Qed.
 
 Lemma upgrade_steps : forall e ms vs d d',
